@@ -8,6 +8,7 @@ import PwVerif.Model.Stream
 import PwVerif.Model.Create
 import PwVerif.Model.Contexts
 import PwVerif.Gen.RunLoops
+import PwVerif.Gen.Forward
 /-!
 Line-protocol driver: `lake env lean --run PwVerif/Driver.lean < cases.txt`.
 One case per input line, one canonical observation per output line. Used by the
@@ -344,6 +345,20 @@ def step (line : String) : String :=
     | none => "bad-op"
     | some ops => ",".intercalate ((PwVerif.Contexts.run [] ops).2.map fun
         | .ok => "ok" | .exists => "exists" | .refused => "refused")
+  | "fwd" :: msgs =>
+    -- `fwd <i<c>|e<c>|f>...`: PersistentRemoteWorker._fetch_results over a scripted message sequence
+    let parse (t : String) : Option PwVerif.Forward.In :=
+      match t.toList with
+      | 'i' :: r => (String.ofList r).toNat?.map .item
+      | 'e' :: r => (String.ofList r).toNat?.map .endM
+      | ['f'] => some .final
+      | _ => none
+    match msgs.mapM parse with
+    | none => "bad-op"
+    | some ms =>
+      let s := PwVerif.Forward.fwd PwVerif.Gen.fwdCfg ms {}
+      "crashed=" ++ (if s.crashed then "1" else "0") ++ " out=" ++ ",".intercalate (s.out.map fun
+        | .item c => "i" ++ toString c | .endM c => "e" ++ toString c)
   | "c02create" :: _ =>
     ",".intercalate ([false, true].flatMap fun p => [PwVerif.Create.WType.thread, .process, .remote].map fun t => PwVerif.Create.className t p)
   | "c13choice" :: args => c13choice args
